@@ -497,6 +497,56 @@ def refused_operations_leave_no_trace(col, contract):
             del contract.disagreements[:]
 
 
+def nested_entry_points_use_the_calls_registry(col):
+    """constructs that evaluate a sub-spec through an entry point of their own (the key of First / Iter().first) still use the registry
+    of the call they run in: a Glommer's own registrations apply there, global registrations do not leak in, and a Glommer without
+    default types knows no more inside the key spec than outside"""
+    import glom as glom_pkg
+    from glom.streaming import First
+
+    class Cell:
+        __slots__ = ('raw',)
+
+        def __init__(self, raw):
+            self.raw = raw
+
+    class GlobalOnly:
+        __slots__ = ('raw',)
+
+        def __init__(self, raw):
+            self.raw = raw
+    glom_pkg.register(GlobalOnly, get=lambda o, k: ('global-handler', o.raw))
+    g = Glommer()
+    g.register(Cell, get=lambda o, k: o.raw if k == 'decoded' else getattr(o, k))
+    bare = Glommer(register_default_types=False)
+    bare.register(list, iterate=iter)
+    cells = lambda: [Cell(0), Cell(''), Cell('hit'), Cell('later')]
+    for name, mk in (('Iter().first(key=path)', lambda: (Iter().first('decoded'), 'raw')), ('First(key=path)', lambda: (First('decoded'), 'raw')),
+                     ('Iter().first(key=(path, len))', lambda: (Iter().first(('decoded', lambda v: len(v) if isinstance(v, str) else 0)), 'raw'))):
+        got = call(g.glom, cells(), mk())
+        col.case(('nested-entry-point', name, 'own-registration'), True)
+        col.count('api_lookups')
+        col.count('nested_entry_point_lookups')
+        if not got.ok or got.value != 'hit':
+            col.violation('C13/nested-entry-point-ignores-the-registry-of-the-call:own-registration', 'Glommer with register(Cell, get=decoder): %s over Cell items gives %r, '
+                          "expected the raw value 'hit' of the first item whose decoded value is truthy" % (name, got), None)
+    # a global registration must not be seen by the key spec of a Glommer call
+    got = call(g.glom, [GlobalOnly(0), GlobalOnly(5)], (Iter().first('raw'), 'raw'))
+    col.count('api_lookups')
+    col.count('nested_entry_point_lookups')
+    if not got.ok or got.value != 5:
+        col.violation('C13/nested-entry-point-ignores-the-registry-of-the-call:global-leaks-in', 'glom.register(GlobalOnly, get=...) ; a Glommer, Iter().first("raw") over '
+                      'GlobalOnly items: %r, expected 5 (plain attribute access)' % (got,), None)
+    # a Glommer without default types: dict access is unknown inside the key spec as it is outside
+    outside = call(bare.glom, {'a': 1}, 'a')
+    inside = call(bare.glom, [{'a': 0}, {'a': 1}], Iter().first('a'))
+    col.count('api_lookups', 2)
+    col.count('nested_entry_point_lookups')
+    if outside.ok or not isinstance(outside.exc, UnregisteredTarget) or inside.ok or not isinstance(inside.exc, UnregisteredTarget):
+        col.violation('C13/nested-entry-point-ignores-the-registry-of-the-call:defaults-leak-in', "Glommer(register_default_types=False): 'a' on a dict gives %r ; "
+                      "Iter().first('a') over dicts gives %r (both must be UnregisteredTarget)" % (outside, inside), None)
+
+
 def ephemeral_classes(col, contract):
     """classes created at run time, looked up once and dropped (and collected), in turn of different kinds, on ONE registry
     without any register() call in between: each lookup is decided by the class at hand, whatever was looked up before at
@@ -769,6 +819,7 @@ def run(ctx):
             explicit_false_survives_reregistration(col, contract)
             exact_registration_widened_later(col, contract)
             refused_operations_leave_no_trace(col, contract)
+            nested_entry_points_use_the_calls_registry(col)
             ephemeral_classes(col, contract)
             created_levels_use_the_calls_registry(col)
         fams = families()
